@@ -431,13 +431,32 @@ impl Iter {
                     let f = rng.below(raw.funcs.len());
                     let ops = &raw.funcs[f].ops;
                     let st = lower::structure(ops);
-                    let mode = *rng.pick(&[Mode::Before, Mode::After, Mode::Before, Mode::BlockEntry, Mode::BlockExit, Mode::SemAfter, Mode::FuncEntry, Mode::FuncExit]);
+                    let mode = *rng.pick(&[
+                        Mode::Before, Mode::After, Mode::Before, Mode::BlockEntry, Mode::BlockExit, Mode::SemAfter, Mode::FuncEntry, Mode::FuncExit,
+                        Mode::Alt, Mode::EmptyAlt, Mode::BlockAlt, Mode::EmptyBlockAlt,
+                    ]);
                     let at = match mode {
                         Mode::BlockEntry | Mode::BlockExit | Mode::SemAfter => {
                             if st.blockish.is_empty() {
                                 continue;
                             }
                             *rng.pick(&st.blockish)
+                        }
+                        Mode::BlockAlt | Mode::EmptyBlockAlt => {
+                            // one replaced construct per function (both paths get the same plan; validity is not the subject here)
+                            let c: Vec<usize> = st.blockish.iter().cloned().filter(|b| ops[*b].name != "Else").collect();
+                            if c.is_empty() || plan.iter().any(|i: &Inj| i.func == raw.n_imp_funcs + f as u32 && matches!(i.mode, Mode::BlockAlt | Mode::EmptyBlockAlt)) {
+                                continue;
+                            }
+                            *rng.pick(&c)
+                        }
+                        Mode::Alt | Mode::EmptyAlt => {
+                            let c: Vec<usize> =
+                                (0..ops.len().saturating_sub(1)).filter(|i| !matches!(ops[*i].name.as_str(), "Block" | "Loop" | "If" | "Else" | "End" | "TryTable" | "Try")).collect();
+                            if c.is_empty() {
+                                continue;
+                            }
+                            *rng.pick(&c)
                         }
                         _ => rng.below(ops.len()),
                     };
@@ -496,8 +515,8 @@ impl Iter {
                     };
                     let k = first.iter().zip(second.iter()).position(|(a, b)| a != b).unwrap_or(0);
                     out.violate(
-                        format!("inject:second-component-encoding-differs:{}", modes.join("+")),
-                        detail(json!({"module": k, "plans": format!("{:?}", plans),
+                        "inject:second-component-encoding-differs".to_string(),
+                        detail(json!({"module": k, "plans": format!("{:?}", plans), "modes": modes.join("+"),
                                       "first": first.get(k).map(|b| crate::props::c01::text_of(b)), "second": second.get(k).map(|b| crate::props::c01::text_of(b))})),
                     );
                 } else {
@@ -651,7 +670,20 @@ fn lower_set_and_inject(it: &mut ComponentIterator, inj: &Inj) {
         Mode::FuncExit => {
             it.func_exit();
         }
-        _ => {}
+        Mode::Alt => {
+            it.alternate();
+        }
+        Mode::EmptyAlt => {
+            it.empty_alternate();
+            return;
+        }
+        Mode::BlockAlt => {
+            it.block_alt();
+        }
+        Mode::EmptyBlockAlt => {
+            it.empty_block_alt();
+            return;
+        }
     }
     for o in lower::probe_ops_for(inj) {
         it.inject(o);
